@@ -1,2 +1,76 @@
-(** C01 - placeholder while the proofs are being written. *)
-From E57 Require Import Base.Prelude.
+(** C01 - Raw point data survives write -> read exactly.
+    Statements only; every proof is an [exact] of a lemma proved in Proofs/.
+    The XML text is an input of this statement (any byte string): what the XML
+    says about prototypes and record counts is property C04; here the reader is
+    given the descriptors the writer published. *)
+From E57 Require Import Base.Prelude Model.Device Model.PagedWriter Model.PagedReader Model.Record
+  Model.Prog Model.QueueReader Model.PcWriter Model.FileBin Model.ReaderOpen
+  Spec.PageSpec Spec.BitSpec Spec.FormatSpec
+  Proofs.PagedWriterProofs Proofs.PcWriterLemmas Proofs.PcWriterProofs Proofs.QueueReaderProofs
+  Proofs.FileRtWriter Proofs.FileRtReader Proofs.FileRtMain Proofs.FileRtExample.
+
+(** The whole file: for ANY list of items (any number and order of blobs and
+    point clouds - so every section start residue modulo 1020 is covered by the
+    quantifier, not by a sweep), every prototype over single/double/integer/
+    scaled integer of any declared range for which one point fits into a packet
+    ([item_wf]: [scene_ok] = types well formed, values of the prototype's type
+    and within minimum..maximum, at least one record of non-zero width), any
+    number of points: the writer accepts every call, the flushed file is a whole
+    number of sealed pages, the reader opens it and gets the XML bytes, and for
+    each point cloud the raw iterator returns exactly the points that were
+    added - as many as the published record count, in order, bit-identical -
+    after ANY earlier page-layer history on the same reader. *)
+Theorem C01_file_roundtrip : forall (is : list item) (xml : list N),
+  forallb item_wf is = true ->
+  (xml <> [] \/ len (ls_data (final_stream is xml)) mod 1020 <> 0) ->
+  len xml <= MAX_XML_SIZE ->
+  ls_phys_size (final_stream is xml) < 2 ^ 64 ->
+  roundtrip_ok is xml.
+Proof. exact file_roundtrip. Qed.
+
+(** The section a point cloud writer emits is an encoding of the points in the
+    independent format specification, for a layout that is legal. *)
+Theorem C01_writer_emits_spec : forall (proto : list dtype) (points : list (list rvalue)) (l0 : lstream) (mpp : N),
+  scene_ok proto points = true ->
+  get_max_packet_points proto = Ok mpp ->
+  ls_pos l0 = len (ls_data l0) -> len (ls_data l0) mod 4 = 0 ->
+  exists (lay : layout) (l1 : lstream),
+    wrun_spec (item_write (IPc proto points)) l0
+      = (l1, Ok (OPc (phys_of_log (len (ls_data l0))) (len points))) /\
+    legal proto points lay = true /\
+    ls_data l1 = ls_data l0 ++ encode_section (phys_of_log (len (ls_data l0) + 32)) lay /\
+    ls_pos l1 = len (ls_data l1) /\ len (ls_data l1) mod 4 = 0.
+Proof. exact pcw_emits_spec. Qed.
+
+(** Packet capacity: with [max_points_per_packet] as computed, at least one
+    point fits and no data packet exceeds the 64 KiB limit of the format. *)
+Theorem C01_packet_capacity : forall proto mpp,
+  get_max_packet_points proto = Ok mpp ->
+  1 <= mpp /\
+  6 + 2 * len proto + len proto + 500
+    + (mpp * fold_left (fun a t => a + bit_size t) proto 0) / 8 <= 65535 /\
+  6 + 2 * len proto
+    + (mpp * fold_left (fun a t => a + bit_size t) proto 0 + 7 * len proto) / 8 + 3 <= 65535 /\
+  6 + 2 * len proto + len proto + 3 <= 65535.
+Proof. exact packet_capacity. Qed.
+
+(** The hypothesis on the XML is exact: an EMPTY XML text whose position is the
+    very end of a page payload is written without error but cannot be opened
+    (the crate never writes an empty XML text). *)
+Theorem C01_empty_xml_at_page_end_refused : forall (is : list item),
+  forallb item_wf is = true ->
+  len (ls_data (final_stream is [])) mod 1020 = 0 ->
+  ls_phys_size (final_stream is []) < 2 ^ 64 ->
+  snd (reader_open (dev_init (file_of is []) None)) = Err ERead.
+Proof. exact file_open_fails_empty_xml_at_page_end. Qed.
+
+(** Non-vacuity: two point clouds with a 0-bit, an 11-bit and a 64-bit record and
+    a 1019-byte blob between them satisfy every premise. *)
+Theorem C01_instance : roundtrip_ok FileInstance.items FileInstance.xml.
+Proof. exact file_roundtrip_instance. Qed.
+
+Print Assumptions C01_file_roundtrip.
+Print Assumptions C01_writer_emits_spec.
+Print Assumptions C01_packet_capacity.
+Print Assumptions C01_empty_xml_at_page_end_refused.
+Print Assumptions C01_instance.
